@@ -138,6 +138,7 @@ class HidDevice:
         self.lost_mode = None          # None | 'oserror' | 'eof'
         self.write_fails = False
         self.writes = []
+        self.on_report = None          # harness hook: called when a report becomes readable
         world.devices.append(self)
 
     # -- file interface
@@ -186,6 +187,8 @@ class HidDevice:
         def deliver(fd=self.fd):
             if self.fd == fd and self.lost_mode is None:
                 self.rx.append(data)
+                if self.on_report is not None:
+                    self.on_report(data)
         self.world.after(delay, deliver)
 
 
@@ -489,6 +492,7 @@ class SciGateway(SerialDevice):
         self.confirm = True
         self.answering = True
         self.dev_id = 0x30
+        self.late_confirms = {}        # (width, value) -> extra seconds before the status report of that command is sent
 
     def on_write(self, data):
         self.rxbuf += data
@@ -535,7 +539,8 @@ class SciGateway(SerialDevice):
                 self.send(self.pick("sci.confirm_delay", [0.002, 0.012]), W.sci_frame(self.dev_id | 7, 0, 0, 3))
             else:
                 code = 1 if (ans is None and is_query(nbits, value)) else 0
-                self.send(self.pick("sci.confirm_delay", [0.002, 0.012]), W.sci_frame(self.dev_id | code, 0, 0, 0))
+                self.send(self.pick("sci.confirm_delay", [0.002, 0.012]) + self.late_confirms.get((nbits, value), 0.0),
+                          W.sci_frame(self.dev_id | code, 0, 0, 0))
         if ans is not None and ans[0] == "ok" and self.answering:
             d = self.pick("sci.answer_delay", [0.014, 0.02, 0.028]) + self.late_answers.get((nbits, value), 0.0)
             self.send(d, W.sci_frame(self.dev_id | 2, 0, 0, ans[1]))
